@@ -249,7 +249,13 @@ class Importance(CellModifierInput):
                     other_particles.remove(removee)
                 # a comment runs to the end of its line: the next entry starts a continuation line
                 lines = ret.splitlines()
-                if lines and (self._is_comment_line(lines[-1]) or "$" in lines[-1]):
+                if ret.endswith("\n"):
+                    # the entry before ended its line (padding of a value read in the data block):
+                    # this one continues the cell's input, it must not start in columns 1-5
+                    ret += " " * BLANK_SPACE_CONTINUE
+                elif lines and (
+                    self._is_comment_line(lines[-1]) or "$" in lines[-1]
+                ):
                     ret += "\n" + " " * BLANK_SPACE_CONTINUE
                 ret += self._particle_importances[particle].format()
                 particles_printed.add(particle)
